@@ -13,7 +13,7 @@ import (
 // same function was verified under an unproved assumption and is not entered into a ledger.
 func poisons(kind string) bool {
 	switch kind {
-	case "inv-entry", "inv-preserved", "requires", "ensures", "at-call", "at-store", "at-return", "body-calls", "body-stores", "forbid-call", "map-order", "loop-complete", "fresh-writes", "decreases",
+	case "inv-entry", "inv-preserved", "requires", "ensures", "at-call", "at-store", "callback", "at-return", "body-calls", "body-stores", "forbid-call", "map-order", "loop-complete", "fresh-writes", "decreases",
 		"folded-key", "folded-store", "folded-elems", "nonnil-store", "nonnil-init", "nonnil-append", "nonnil-elems", "typed-nil", "nlfree-store", "nlfree-msg", "shared-write", "immutable-store":
 		return true
 	}
